@@ -98,10 +98,12 @@ class ExcelArrayOps(object):
         self.arr = arr
 
     def adapt_value(self, value):
-        while isinstance(value, list) and len(value) == 1 and len(self.arr) != 1:
+        for _ in range(2):
             # a one-item array (a one-cell range [[v]]) acts as its item - but two one-row
-            # ranges [[a,b,c]] and [[d,e,f]] pair row with row
-            value = value[0]
+            # ranges [[a,b,c]] and [[d,e,f]] pair row with row.  (Two levels, not "while": a
+            # list that contains itself would be unwrapped for ever.)
+            if isinstance(value, list) and len(value) == 1 and len(self.arr) != 1:
+                value = value[0]
         if not isinstance(value, list):
             value = [value for i in range(len(self.arr))]
         return value
@@ -382,9 +384,10 @@ def evaluate_arithmetic(op, lval, rval):
         return lval
     if isinstance(rval, error.XLError):
         return rval
-    while isinstance(lval, list) and len(lval) == 1 and isinstance(rval, list) and len(rval) > 1:
+    for _ in range(2):
         # a one-item array acts as its item on the right ({1;2}+{1}): on the left as well
-        lval = lval[0]
+        if isinstance(lval, list) and len(lval) == 1 and isinstance(rval, list) and len(rval) > 1:
+            lval = lval[0]
     if isinstance(lval, list):
         return OPERATOR_DICT[op](ExcelArrayOps(lval), rval)
     if isinstance(rval, list):
